@@ -16,6 +16,9 @@ if "--jobs" in args:
     i = args.index("--jobs")
     jobs = int(args[i + 1])
     del args[i : i + 2]
+first_only = "--first-only" in args
+if first_only:
+    args.remove("--first-only")
 want = args
 
 
@@ -25,7 +28,11 @@ def one(d):
     meta = json.load(open(mp))
     if meta.get("not_detected"):
         return name, None, f"recorded as NOT detected ({meta['not_detected'][:80]})"
-    checks = [meta["property"]] + [c for c in (meta.get("verification", {}).get("detected_by") or []) if c != meta["property"]]
+    prev = (meta.get("regression", {}).get("detected_by") or meta.get("verification", {}).get("detected_by") or [])
+    checks = [meta["property"]] + [c for c in prev if c != meta["property"]]
+    if first_only:
+        # one check per change: the property's own check if it detected the change last time, else the first that did
+        checks = [meta["property"]] if (meta["property"] in prev or not prev) else [prev[0]]
     r = subprocess.run(["python3", "/verif/tools/mutest.py", os.path.join(d, "patch.diff")] + checks, stdout=subprocess.PIPE, stderr=subprocess.STDOUT, text=True)
     line = [l for l in r.stdout.splitlines() if l.startswith("RESULT")]
     try:
@@ -45,7 +52,14 @@ def one(d):
     return name, bool(det), f"{rc}"
 
 
-dirs = [d for d in sorted(glob.glob("/verif/seeded/C*")) if not want or any(os.path.basename(d).startswith(w) for w in want)]
+def _round(d):
+    import re as _re
+
+    m = _re.search(r"_r(\d)m", os.path.basename(d))
+    return -(int(m.group(1)) if m else 1)
+
+
+dirs = [d for d in sorted(glob.glob("/verif/seeded/C*"), key=lambda d: (_round(d), d)) if not want or any(w in os.path.basename(d) for w in want)]
 bad = []
 with cf.ThreadPoolExecutor(jobs) as ex:
     for name, ok, msg in ex.map(one, dirs):
